@@ -2,5 +2,6 @@
 set -eu
 export GOFLAGS=-mod=mod GOPROXY=off GOSUMDB=off GOTOOLCHAIN=local
 V="${VERIF_DIR:-/verif}"
-(cd /repo && go build -o "$V/.build/gedcom-bin" ./cmd/gedcom)
+R="${VERIF_REPO:-/repo}"
+(cd "$R" && go build -o "$V/.build/gedcom-bin" ./cmd/gedcom)
 (cd "$V/harness" && go build -o "$1" ./cmd/c14)
